@@ -19,7 +19,7 @@ Notation gobj := (obj SN).
 Notation GSink := (GenericStatementSink SN).
 Notation GStream := (@Stream SN gobj).
 Notation grmsg := (rmsg gput).
-Notation gRs := (Rs E.Generic obj_of_term gput).
+Notation gRs := (Rs E.Generic obj_of_term all_ok gput).
 Notation fmsg := (frame_msg grmsg).
 
 (* ------------------------------------------------------------------ the sink *)
@@ -82,7 +82,7 @@ Proof.
   - cbn. split; [reflexivity | exact HR].
   - match goal with |- context [?f (map ?h ((n, i) :: ns)) (k, g)] => set (loop := f) in * end.
     cbn [map declare_all fst snd].
-    pose proof (source_namespace_declaration_is_model E.Generic obj_of_term gput n i g m HR) as Hstep.
+    pose proof (source_namespace_declaration_is_model E.Generic obj_of_term all_ok gput n i g m HR) as Hstep.
     unfold loop at 1. fold loop. cbv beta iota.
     destruct (Stream_namespace_declaration SN n i g) as [[u|e] g1]; destruct (namespace_declaration n i m) as [m1 [u'|e']]; try contradiction.
     + exact (IH g1 m1 Hstep).
@@ -231,7 +231,7 @@ Theorem source_triples_stream_frames_is_model (k : GSink) (d : sdata) (g : GStre
 Proof.
   intros HRd Hok HR Hc. pose proof HRd as (Hsink & Hstore & Hns).
   unfold GenericSerializeGen.triples_stream_frames, Streams.triples_stream_frames. cbv zeta.
-  pose proof (source_enroll_is_model E.Generic obj_of_term gput g m HR) as H0.
+  pose proof (source_enroll_is_model E.Generic obj_of_term all_ok gput g m HR) as H0.
   destruct (Stream_enroll SN g) as [[u|e] g0]; [|contradiction].
   destruct (enroll_class m) as [Hc0 Ho0].
   unfold ns_phase. rewrite Hsink, (nd_of_Rs g0 (enroll m) H0). cbn [andb].
@@ -314,7 +314,7 @@ Theorem source_quads_stream_frames_is_model (k : GSink) (d : sdata) (g : GStream
 Proof.
   intros HRd Hok HR Hc. pose proof HRd as (Hsink & Hstore & Hns).
   unfold GenericSerializeGen.quads_stream_frames, Streams.quads_stream_frames. cbv zeta.
-  pose proof (source_enroll_is_model E.Generic obj_of_term gput g m HR) as H0.
+  pose proof (source_enroll_is_model E.Generic obj_of_term all_ok gput g m HR) as H0.
   destruct (Stream_enroll SN g) as [[u|e] g0]; [|contradiction].
   destruct (enroll_class m) as [Hc0 Ho0].
   unfold ns_phase. rewrite Hsink, (nd_of_Rs g0 (enroll m) H0).
@@ -564,7 +564,7 @@ Theorem source_graphs_stream_frames_is_model (k : GSink) (d : sdata) (g : GStrea
 Proof.
   intros HRd Hok HR Hc. pose proof HRd as (Hsink & Hstore & Hns).
   unfold GenericSerializeGen.graphs_stream_frames, Streams.graphs_stream_frames_generic. cbv zeta.
-  pose proof (source_enroll_is_model E.Generic obj_of_term gput g m HR) as H0.
+  pose proof (source_enroll_is_model E.Generic obj_of_term all_ok gput g m HR) as H0.
   destruct (Stream_enroll SN g) as [[u|e] g0]; [|contradiction].
   destruct (enroll_class m) as [Hc0 Ho0].
   unfold ns_phase. rewrite Hsink, (nd_of_Rs g0 (enroll m) H0).
